@@ -212,4 +212,3 @@ Definition enabled (s : state) : list (list N) :=
        else [Create f]) (seq 0 (length (futs s)))
      ++ [TryLock; IsLocked] ++ (if Nat.ltb 0 (guards s) then [DropGuard] else [])).
 
-Definition machine : Base.machine := mkMachine state minit mstep enabled (fun s => s) (fun _ _ _ => true).
